@@ -284,6 +284,11 @@ class Weaver:
                 inv.append("        decreases " + ls["decreases"] + ",")
             if inv:
                 ed.insert(lp["body_open"], "\n" + "\n".join(inv) + "\n        ", "W2")
+            # W5 ghost hints at the start / end of the loop body
+            if ls.get("body_start"):
+                ed.insert(lp["body_open"] + 1, "\n            " + ls["body_start"] + "\n", "W5")
+            if ls.get("body_end"):
+                ed.insert(lp["body_close"] - 1, "\n            " + ls["body_end"] + "\n        ", "W5")
         # R2 + W3: closures
         closures = it.get("closures", [])
         r2 = spec.get("r2_all", True)
@@ -362,7 +367,10 @@ class Weaver:
                     raise Undecided(f"W5 hint anchor {anchor!r} occurrence {occ} missing in {spec['path']}")
             if h.get("after"):
                 pos += len(anchor)
-            text = text[:pos] + "\n" + h["text"] + "\n" + text[pos:]
+            htext = h["text"]
+            if h.get("tag") == "auxiliary":
+                htext = "\n".join(l + " /*@aux-hint*/" for l in htext.split("\n"))
+            text = text[:pos] + "\n" + htext + "\n" + text[pos:]
             fired.append("W5")
         text = pre_attr + text
         self.records.append(record(it, src[s:e].decode("utf-8"), text, fired))
